@@ -47,6 +47,8 @@ type SleepPlan struct {
 	Ctx      string `json:"ctx"` // bg | deadline | cancelled | cancel-at | deadline+cancel
 	Deadline int64  `json:"deadline,omitempty"`
 	CancelAt int64  `json:"cancel_at,omitempty"`
+	// Detached: the context is of a hand-written type (sk.Detach)
+	Detached bool `json:"detached,omitempty"`
 }
 
 func genSleep(t *rapid.T) SleepPlan {
@@ -74,6 +76,7 @@ func genSleep(t *rapid.T) SleepPlan {
 	} else if rapid.IntRange(0, 7).Draw(t, "dlonly") == 0 {
 		p.Ctx = "deadline-only"
 	}
+	p.Detached = rapid.IntRange(0, 4).Draw(t, "detached") == 0
 	return p
 }
 
@@ -146,6 +149,9 @@ func runSleep(p SleepPlan) (vk.Outcome, error) {
 		}
 		doneAtCall := ctx.Err() != nil
 		start := time.Now()
+		if p.Detached {
+			ctx = sk.Detach(ctx)
+		}
 		err := xtime.SleepContext(ctx, time.Duration(p.D))
 		elapsed := int64(time.Since(start))
 		var tooSoon xtime.DeadlineTooSoonError
